@@ -157,6 +157,11 @@ pub enum Surgery {
     /// points (`dx`, `dy` for the first component: chosen so that an instance can push one offset
     /// out of the int8 range and not the other).
     InstallVarComposite { glyph: u16, a: u16, b: u16, dx: i16, dy: i16, variant: u64 },
+    /// TrueType variable font: rewrite, in place, the `gvar` data of the simple glyph `glyph`
+    /// (at most 60 points) as one tuple variation over all points whose deltas alternate between
+    /// `+amp` and `-amp` (or ramp, by `variant`): instances reach and cross the int16 range of
+    /// coordinates and of the deltas between consecutive points that the glyf writer encodes.
+    InstallVarSimple { glyph: u16, amp: i16, variant: u64 },
     /// Re-pack `hmtx` with only `num_h_metrics` long metrics (glyphs after that take the last
     /// advance and keep their side bearing) and update `hhea`. Every corpus CFF2 font and most
     /// others have numberOfHMetrics == numGlyphs, which hides the compact form from the writers.
